@@ -332,11 +332,17 @@ def get_barycentric_coordinates_plane(a, b, c):
     d00 = v0.dot(v0)
     d11 = v1.dot(v1)
     d22 = v2.dot(v2)
+    # The denominators below are 4 * area^2, so the degeneracy test has to be
+    # relative to the size of the triangle (same criterion as in
+    # closest_point_triangle): close to contact the simplex of two curved
+    # shapes is tiny but well-shaped
+    max_edge_len_sq = max(d00, max(d11, d22))
+    degenerate_limit = EPSILON * max_edge_len_sq * max_edge_len_sq
     if d00 <= d22:
         # Use v0 and v1 to calculate barycentric coordinates
         d01 = v0.dot(v1)
         denominator = d00 * d11 - d01 * d01
-        if abs(denominator) < EPSILON:
+        if abs(denominator) <= degenerate_limit:
             # Degenerate triangle, return coordinates along longest edge
             if d00 > d11:
                 u, v = get_barycentric_coordinates_line(a, b)
@@ -355,7 +361,7 @@ def get_barycentric_coordinates_plane(a, b, c):
         d12 = v1.dot(v2)
 
         denominator = d11 * d22 - d12 * d12
-        if abs(denominator) < EPSILON:
+        if abs(denominator) <= degenerate_limit:
             # Degenerate triangle, return coordinates along longest edge
             if d11 > d22:
                 u, w = get_barycentric_coordinates_line(a, c)
